@@ -125,8 +125,33 @@ def page_canon(ltpage):
     return "\n".join(out)
 
 
+# option objects the caller owns: within one history the same LAParams object (per variant) and the same page-number
+# set (per page) are handed to every call, as a caller with module-level defaults would do; the library may read them
+SHARED_LA = {}
+SHARED_SETS = {}
+
+
 def laparams_of(key):
-    return LAParams(**LA_VARIANTS[key])
+    if key not in SHARED_LA:
+        SHARED_LA[key] = LAParams(**LA_VARIANTS[key])
+    return SHARED_LA[key]
+
+
+def pageset(arg):
+    return SHARED_SETS.setdefault(arg, {arg})
+
+
+def options_intact():
+    """None, or a description of an option object that a call has changed."""
+    for key, la in SHARED_LA.items():
+        fresh = LAParams(**LA_VARIANTS[key])
+        if vars(la) != vars(fresh):
+            bad = sorted(k for k in vars(fresh) if vars(la).get(k) != vars(fresh)[k])
+            return "the caller's LAParams object (%s) was changed by a call: %s" % (key, ", ".join("%s=%r" % (k, vars(la).get(k)) for k in bad))
+    for arg, st in SHARED_SETS.items():
+        if st != {arg}:
+            return "the caller's page_numbers set {%d} was changed by a call: now %r" % (arg, st)
+    return None
 
 
 # ------------------------------------------------------------------------------- extraction calls
@@ -153,7 +178,7 @@ def reference(data, la):
     except Exception as e:
         ref["pages"] = "raise:%s@%s" % (type(e).__name__, where(e))
         pages = []
-    for name, fn in (("text", lambda: call_text(data, la, True)), ("fp-text", lambda: call_fp(data, la, True, "text")), ("fp-xml", lambda: call_fp(data, la, True, "xml")), ("fp-html", lambda: call_fp(data, la, True, "html"))):
+    for name, fn in (("text", lambda: call_text(data, la, True)), ("fp-text", lambda: call_fp(data, la, True, "text")), ("fp-xml", lambda: call_fp(data, la, True, "xml")), ("fp-html", lambda: call_fp(data, la, True, "html")), ("fp-hocr", lambda: call_fp(data, la, True, "hocr"))):
         try:
             ref[name] = fn()
         except Exception as e:
@@ -305,7 +330,7 @@ def observe_call(data, la, caching, what, arg):
         if what == "pages":
             return [page_canon(p) for p in call_pages(data, la, caching)]
         if what == "single":
-            return [page_canon(p) for p in call_pages(data, la, caching, page_numbers={arg})]
+            return [page_canon(p) for p in call_pages(data, la, caching, page_numbers=pageset(arg))]
         if what == "doc-twice":
             return walk_twice(data, la, caching)
         if what == "html-options":
@@ -313,7 +338,7 @@ def observe_call(data, la, caching, what, arg):
         if what == "text":
             return call_text(data, la, caching)
         if what == "text-single":
-            return call_text(data, la, caching, page_numbers={arg})
+            return call_text(data, la, caching, page_numbers=pageset(arg))
         return call_fp(data, la, caching, what[3:])
     except Exception as e:
         return "raise:%s@%s" % (type(e).__name__, where(e))
@@ -377,6 +402,8 @@ def run(tape, ctx, item=None):
     if ZYG is None:
         ZYG = Zygote()
     devs = []
+    SHARED_LA.clear()
+    SHARED_SETS.clear()
     docs_ = pool.make_pool(t, ctx, core.REPO)
     for d in docs_:
         for f in d["features"]:
@@ -447,7 +474,7 @@ def run(tape, ctx, item=None):
             if addr[0] != "mono":
                 ctx.probe("address policy " + addr[0])
             ev = seams.draw_evict(t)
-            what = t.pick(["pages", "pages", "single", "text", "text-single", "fp-text", "fp-xml", "fp-html", "fp-html", "html-options", "doc-twice"], "task.what")
+            what = t.pick(["pages", "pages", "single", "text", "text-single", "fp-text", "fp-xml", "fp-html", "fp-html", "fp-hocr", "html-options", "doc-twice"], "task.what")
             if what == "doc-twice":
                 ctx.probe("one document walked twice with the same objects")
             r = ref_for(di, la)
@@ -486,6 +513,9 @@ def run(tape, ctx, item=None):
                     ctx.probe("eviction happened", seams.EVICT.evictions)
                 hist.append((what, di, la, arg))
                 check(di, la, what, arg, got, addr, caching)
+                changed = options_intact()
+                if changed:
+                    devs.append(Dev("C12:caller-options-mutated", "%s; history %s" % (changed, hist[-6:])))
         elif k == 1:  # advance one page iterator by one page
             task = t.pick(tasks, "sched.task")
             if last_iter_doc is not None and last_iter_doc != task["doc"]:
